@@ -75,6 +75,7 @@ class GaussianKDE(DensityEstimator):
 
         # decide how many regions the axis should be divided into
         n = int(log((self.sample[-1] - self.sample[0]) / self.h) / log(2)) + 1
+        n = max(n, 0)
 
         # now generate midpoints of these regions
         mids = linspace(self.sample[0], self.sample[-1], 2**n + 1)
